@@ -120,6 +120,10 @@ void
 XercesParserLiaison::reset()
 {
     // Delete any live documents...
+    // (empty() does not create the head node of a container that has
+    // never been used, which begin() would; this is called from
+    // destructors, which must not allocate memory.)
+    if (m_documentMap.empty() == false)
     for(DocumentMapType::iterator i = m_documentMap.begin();
         i != m_documentMap.end();
         ++i)
